@@ -44,8 +44,9 @@ def check(repo, rep, tier):
         rp.r_callbacks(repo, rep, 'R2.5')
         rp.r_sentence_loop(repo, rep, 'R2.4', ti)
         rp.r_root_ids(repo, rep, 'R2.5', ti)
-    from .c11 import r_chunks
+    from .c11 import r_chunks, r_gather
     r_chunks(repo, rep, 'R2.4')            # a tree is built from the tokens of its own sentence: the batch split neither skips nor repeats
+    r_gather(repo, rep, 'R2.4')            # ... and the pieces come back in the order they were cut
     rep.floor('agenda push sites', len(m.sites), 5)
     rep.floor('binary push sites', len(m.by_kind.get('binary', [])), 2)
     rep.note('push_sites', [(s.kind, s.line) for s in m.sites])
